@@ -588,3 +588,7 @@ MUTANTS.append(Mutant("ramp-subtracted", [(RATES, "return T0 + dTdt * variables[
 
 
 MUTANTS.append(Mutant("rtruediv-one-shortcut", [(EXPR, "    def __rtruediv__(self, other):\n        return _DivExpr([_implicit_conversion(other), self])", "    def __rtruediv__(self, other):\n        if other == 1:\n            return self\n        return _DivExpr([_implicit_conversion(other), self])")], "C16-R5", "shortcut-only-for-identity"))
+
+# shared rule A3 (guarded helpers)
+MUTANTS.append(Mutant("pure-number-magnitude", [("chempy/kinetics/rates.py", "        return arg.simplified\n    except AttributeError:", "        return arg.magnitude\n    except AttributeError:")], "C16-A3", "guarded-helper-changed"))
+TWINS.append(Twin("pure-number-temporary", [("chempy/kinetics/rates.py", "        return arg.simplified\n    except AttributeError:", "        reduced = arg.simplified\n        return reduced\n    except AttributeError:")]))
